@@ -427,7 +427,7 @@ BinaryChecks(cfg, pre, post, ln) ==
          LET interch == cfg.isStd \/ cfg.pocs \/ eq IN
          { Chk("C01", "swap:contents-exchanged", ok /\ ~self,
                yd.e = xs.e /\ ys.e = xd.e),
-           Chk("C01", "swap:self=>no-change", self, yd.e = xd.e /\ yd.cap = xd.cap /\ StN(yd) = StN(xd) /\ ok),
+           Chk("C01", "swap:self=>no-change", self /\ ok, yd.e = xd.e /\ yd.cap = xd.cap /\ StN(yd) = StN(xd)),
            Chk("C01", "swap:throws-only-as-vector", TRUE, outOK),
            Chk("C07", "swap:allocators-exchanged-iff-POCS", ok /\ ~self,
                IF cfg.pocs /\ ~cfg.isStd THEN AllocEq(cfg, yd.al, xs.al) /\ AllocEq(cfg, ys.al, xd.al)
